@@ -15,7 +15,7 @@ META = {
          "Trusted: pathsum. Decides the structural conditions on every path of the two functions, not the behaviour of concrete message sequences.",
          "path-summary dataflow over type-checked HIR"),
  "C03": ("other", "§3 C03",
-         "Sibling agreement of the conversion impls in value.rs (radix table, Self type, error kinds, no cast), generated-arm argument discipline (arity guard, args.get(j) in order, conversions before the call), recogniser/variant/radix table agreement, argument vector overflow discipline. The meaning of the parser combinators (satisfy, take_while, optional, tag) that the skeleton rules build on is read from their own bodies on every run (contract rule PR). Incomplete discipline of the data recognisers (rule C12-I) is evaluated here as well.",
+         "Sibling agreement of the conversion impls in value.rs (radix table, Self type, error kinds, no cast), generated-arm argument discipline (arity guard, args.get(j) in order, conversions before the call), recogniser/variant/radix table agreement, argument vector overflow discipline. The meaning of the parser combinators (satisfy, take_while, optional, tag) that the skeleton rules build on is read from their own bodies on every run (contract rule PR). Incomplete discipline of the data recognisers (rule C12-I) is evaluated here as well. The buffer discipline of process is evaluated here as well (C03-K).",
          "Numeric exactness of core::num / core::str::parse is trusted.",
          "HIR structural rules + sibling cross-check + byte-class denotation"),
  "C04": ("other", "§3 C04",
@@ -27,7 +27,7 @@ META = {
          "Panics inside core/heapless beyond documented preconditions and user code are out of scope.",
          "MIR panic-edge universe + guard discharge + progress rules"),
  "C06": ("other", "§3 C06",
-         "Path-summary rules on Interface::run: one handle_error per faulty path with the verbatim error, faulty bytes skipped, state inventory across back-edges. The conversion and argument-vector rules of C03 (no wrapping/truncating conversion, no dropped push) are evaluated here as well.",
+         "Path-summary rules on Interface::run: one handle_error per faulty path with the verbatim error, faulty bytes skipped, state inventory across back-edges. The conversion and argument-vector rules of C03 (no wrapping/truncating conversion, no dropped push) are evaluated here as well. Undefined headers are faults: trie language and dispatcher arms of the witness interfaces (C06-T/D).",
          "Decides structural conditions per path; the history-level equality follows by the argument in DESIGN.md.",
          "path-summary rules over HIR"),
  "C07": ("other", "§3 C07",
@@ -35,15 +35,15 @@ META = {
          "Decides the buffer discipline, not equality of behaviour across chunkings as such.",
          "path summaries + linear normal forms"),
  "C08": ("other", "§3 C08",
-         "Byte-class denotation of string payload classes (all bytes but the delimiter), block taken by length only, Incomplete never masked on the way from a newline-transparent parser to run. The meaning of the parser combinators (satisfy, take_while, optional, tag) that the skeleton rules build on is read from their own bodies on every run (contract rule PR).",
+         "Byte-class denotation of string payload classes (all bytes but the delimiter), block taken by length only, Incomplete never masked on the way from a newline-transparent parser to run. The meaning of the parser combinators (satisfy, take_while, optional, tag) that the skeleton rules build on is read from their own bodies on every run (contract rule PR). Resumption of a message by process: run's Incomplete answer on every parse-error path; loss of the header path across a resumption is the recorded finding F9 (C08-R).",
          "Trusted: bytecls evaluator, pathsum.",
          "byte-class denotation + error-kind flow over HIR"),
  "C09": ("proof", "§3 C09",
-         "The queue implementation is matched against the abstract bounded FIFO with replace-newest overflow: callee sets and store discipline of push/pop/count, blanket handler pushes once, NEXT?/COUNt? handlers, error number/text table against SCPI-1999. On the witness interfaces every spelling of the error queries reaches exactly the queue-reading functions through trie and dispatcher (C09-D).",
+         "The queue implementation is matched against the abstract bounded FIFO with replace-newest overflow: callee sets and store discipline of push/pop/count, blanket handler pushes once, NEXT?/COUNt? handlers, error number/text table against SCPI-1999. On the witness interfaces every spelling of the error queries reaches exactly the queue-reading functions through trie and dispatcher (C09-D). The buffer discipline of process - one response buffer per message - is evaluated here as well (C09-K).",
          "heapless::Deque is trusted to be a bounded deque.",
          "HIR/MIR callee-set and who-may-call rules + table comparison"),
  "C10": ("proof", "§3 C10",
-         "All clauses are structural and are decided for every stream and fault position on the single generic body of process: transport calls `.await?` unchanged, only error exits, response typestate (write+flush+clear before read). execute's output discipline (rule C04-X: terminator only after a successful query) is evaluated here as well.",
+         "All clauses are structural and are decided for every stream and fault position on the single generic body of process: transport calls `.await?` unchanged, only error exits, response typestate (write+flush+clear before read). execute's output discipline (rule C04-X: terminator only after a successful query) is evaluated here as well. The slot rule of C01 (nothing executed, nothing written for a header in the wrong form) as C10-C01X; the buffer discipline as C10-K.",
          "Trusted: rustc HIR/typeck, factdump, pathsum.",
          "path-summary typestate over type-checked HIR"),
  "C11": ("other", "§3 C11",
@@ -59,7 +59,7 @@ META = {
          "Trusted: rustc crate loading; heapless without allocating features.",
          "crate-graph and MIR call-graph obligations from compiler facts"),
  "C14": ("other", "§3 C14",
-         "Compile-fail witnesses (colliding pairs must fail inside the macro with the matching kind, collision-free twins must build) and structural rules on Tree::insert_at / insert / interface.",
+         "Compile-fail witnesses (colliding pairs must fail inside the macro with the matching kind, collision-free twins must build) and structural rules on Tree::insert_at / insert / interface. No declaration shadowed through colliding dispatcher keys: rules C01-T/D on the witness interfaces (C14-T/D).",
          "Collisions outside the generated families are covered by the structural rules only.",
          "compile-fail witnesses + HIR rules on the macro crate"),
 }
